@@ -359,8 +359,8 @@ type vCaseC55 struct {
 	Exec     string      `json:"exec"`
 }
 
-var vKindsFileC55 = []string{kOpenEACCES, kStatEACCES, kReadEACCES, kReadMid, kFile2Dir, kFile2Link, kVanish, kVanishOpen, kVanishLate}
-var vKindsDirC55 = []string{kOpenEACCES, kStatEACCES, kReaddirEACC, kReaddirPart, kDir2File, kVanish, kVanishOpen, kVanishLate, kReaddirEACC, kReaddirPart, kOpenEACCES}
+var vKindsFileC55 = []string{kOpenEACCES, kStatEACCES, kReadEACCES, kReadMid, kFile2Dir, kFile2Link, kVanish, kVanishOpen, kVanishLate, kReadMid, kReadMid, kReadEACCES}
+var vKindsDirC55 = []string{kOpenEACCES, kStatEACCES, kReaddirEACC, kReaddirPart, kDir2File, kVanish, kVanishOpen, kVanishLate, kReaddirEACC, kReaddirPart, kOpenEACCES, kDir2File, kDir2File}
 var vKindsLinkC55 = []string{kStatEACCES, kVanish, kVanishOpen, kLink2File, kLink2Dir, kLink2File, kLink2Dir}
 
 func vIsVanishC55(k string) bool { return k == kVanish || k == kVanishOpen }
@@ -559,7 +559,7 @@ func vGenCaseC55(t *rapid.T, exec string) (vTree, *vCaseC55) {
 			links = append(links, p)
 		}
 	}
-	if len(links) > 0 && (flavour == 2 || rapid.IntRange(0, 3).Draw(t, "linkswap") == 0) {
+	if len(links) > 0 && flavour >= 2 && (flavour == 2 || rapid.IntRange(0, 3).Draw(t, "linkswap") == 0) {
 		if flavour == 2 {
 			c.Faults = nil
 		}
